@@ -150,6 +150,81 @@ pub mod gs {
     pub open spec fn deps_le(fs: Seq<File>, n: int) -> bool {
         forall|f: int, k: int| 0 <= f < fs.len() && 0 <= k < fs[f].dependents@.len() ==> ix(#[trigger] fs[f].dependents@[k]) < n
     }
+    /// C06(a): every build is listed among the dependents of each of its ordering inputs (ready_dependents finds the builds
+    /// that wait for a finished one through these lists)
+    pub open spec fn deps_complete(g: Graph) -> bool {
+        forall|b: int, j: int| 0 <= b < builds(g).len() && 0 <= j < ordering_ins(builds(g)[b]).len() ==>
+            files(g)[ix(#[trigger] ordering_ins(builds(g)[b])[j])].dependents@.contains(crate::graph::BuildId(b as u32))
+    }
+    /// dependents lists only grow
+    pub open spec fn deps_mono(f0: Seq<File>, f1: Seq<File>) -> bool {
+        f0.len() == f1.len() && forall|f: int, k: int| 0 <= f < f0.len() && 0 <= k < f0[f].dependents@.len() ==> f1[f].dependents@.contains(#[trigger] f0[f].dependents@[k])
+    }
+    /// the first k inputs have the new build among their dependents
+    pub open spec fn deps_pushed(fs: Seq<File>, ins: Seq<FileId>, k: int, nid: crate::graph::BuildId) -> bool {
+        forall|j: int| 0 <= j < k ==> ix(#[trigger] ins[j]) < fs.len() && fs[ix(ins[j])].dependents@.contains(nid)
+    }
+    /// pushing nid onto the dependents of ins[k] (and nothing else changing in any dependents list)
+    pub proof fn lemma_deps_push(f_old: Seq<File>, f0: Seq<File>, f1: Seq<File>, ins: Seq<FileId>, k: int, nid: crate::graph::BuildId)
+        requires deps_mono(f_old, f0), deps_pushed(f0, ins, k, nid), 0 <= k < ins.len(), ix(ins[k]) < f0.len(), f1.len() == f0.len(),
+            f1[ix(ins[k])].dependents@ == f0[ix(ins[k])].dependents@.push(nid),
+            forall|f: int| 0 <= f < f0.len() && f != ix(ins[k]) ==> (#[trigger] f1[f]).dependents@ == f0[f].dependents@,
+        ensures deps_mono(f_old, f1), deps_pushed(f1, ins, k + 1, nid)
+    {
+        let x = ix(ins[k]) as int;
+        assert forall|f: int, i: int| 0 <= f < f_old.len() && 0 <= i < f_old[f].dependents@.len() implies f1[f].dependents@.contains(#[trigger] f_old[f].dependents@[i]) by {
+            let d = f_old[f].dependents@[i];
+            assert(f0[f].dependents@.contains(d));
+            let m = choose|m: int| 0 <= m < f0[f].dependents@.len() && f0[f].dependents@[m] == d;
+            if f == x { assert(f1[f].dependents@[m] == d); } else { assert(f1[f].dependents@[m] == d); }
+        }
+        assert forall|j: int| 0 <= j < k + 1 implies ix(#[trigger] ins[j]) < f1.len() && f1[ix(ins[j])].dependents@.contains(nid) by {
+            let y = ix(ins[j]) as int;
+            if y == x { assert(f1[y].dependents@[f0[y].dependents@.len() as int] == nid); }
+            else {
+                let m = choose|m: int| 0 <= m < f0[y].dependents@.len() && f0[y].dependents@[m] == nid;
+                assert(f1[y].dependents@[m] == nid);
+            }
+        }
+    }
+    /// a change that leaves every dependents list alone
+    pub proof fn lemma_deps_same(f_old: Seq<File>, f0: Seq<File>, f1: Seq<File>, ins: Seq<FileId>, nid: crate::graph::BuildId)
+        requires deps_mono(f_old, f0), deps_pushed(f0, ins, ins.len() as int, nid), f1.len() == f0.len(),
+            forall|f: int| 0 <= f < f0.len() ==> (#[trigger] f1[f]).dependents@ == f0[f].dependents@,
+        ensures deps_mono(f_old, f1), deps_pushed(f1, ins, ins.len() as int, nid)
+    {
+        assert forall|f: int, i: int| 0 <= f < f_old.len() && 0 <= i < f_old[f].dependents@.len() implies f1[f].dependents@.contains(#[trigger] f_old[f].dependents@[i]) by {
+            assert(f0[f].dependents@.contains(f_old[f].dependents@[i]));
+        }
+        assert forall|j: int| 0 <= j < ins.len() implies ix(#[trigger] ins[j]) < f1.len() && f1[ix(ins[j])].dependents@.contains(nid) by {
+            assert(f0[ix(ins[j])].dependents@.contains(nid));
+        }
+    }
+    pub proof fn lemma_deps_complete_add(g0: Graph, g1: Graph, nb: Build)
+        requires deps_complete(g0), wf_graph(g0), builds(g1).len() == builds(g0).len() + 1, builds(g1).len() < 0x1_0000_0000,
+            builds(g1).subrange(0, builds(g0).len() as int) == builds(g0), builds(g1).last().ins == nb.ins, wf_build(nb),
+            deps_mono(files(g0), files(g1)), deps_pushed(files(g1), nb.ins.ids@, nb.ins.ids@.len() as int, crate::graph::BuildId(builds(g0).len() as u32)),
+        ensures deps_complete(g1)
+    {
+        let n = builds(g0).len() as int;
+        assert forall|b: int, j: int| 0 <= b < builds(g1).len() && 0 <= j < ordering_ins(builds(g1)[b]).len() implies
+            files(g1)[ix(#[trigger] ordering_ins(builds(g1)[b])[j])].dependents@.contains(crate::graph::BuildId(b as u32)) by {
+            if b < n {
+                assert(builds(g1)[b] == builds(g1).subrange(0, n)[b]);
+                assert(builds(g1)[b] == builds(g0)[b]);
+                let f = ordering_ins(builds(g0)[b])[j];
+                assert(wf_build(builds(g0)[b]) && build_ids_ok(g0, builds(g0)[b]));
+                assert(f == builds(g0)[b].ins.ids@[j]);
+                assert(fid_ok(g0, f));
+                let dl = files(g0)[ix(f)].dependents@;
+                let k = choose|k: int| 0 <= k < dl.len() && dl[k] == crate::graph::BuildId(b as u32);
+                assert(files(g1)[ix(f)].dependents@.contains(dl[k]));
+            } else {
+                assert(builds(g1)[b] == builds(g1).last());
+                assert(ordering_ins(builds(g1)[b])[j] == nb.ins.ids@[j]);
+            }
+        }
+    }
     pub open spec fn wf_graph(g: Graph) -> bool {
         &&& deps_le(files(g), builds(g).len() as int)
         &&& builds(g).len() < 0x1_0000_0000
@@ -390,6 +465,7 @@ pub mod gs {
                 && (builds(g1)[b].cmdline is None) == (builds(g0)[b].cmdline is None)
         &&& files(g1).len() >= files(g0).len()
         &&& forall|f: int| 0 <= f < files(g0).len() ==> (#[trigger] files(g1)[f]).input == files(g0)[f].input
+                && files(g1)[f].dependents == files(g0)[f].dependents
     }
     /// g1 is g0 with new (input-less, dependent-less) files and the discovered list of step t replaced by deps
     pub open spec fn disc_replaced(g0: Graph, g1: Graph, t: BuildId, deps: Seq<FileId>) -> bool {
